@@ -21,11 +21,33 @@ from symx.values import SymComplex, SymReal, install_float_shadow, is_sym
 _prepared = {}
 
 
+class _LinalgProxy:
+    def __init__(self, la):
+        self._la = la
+
+    def __getattr__(self, k):
+        return getattr(self._la, k)
+
+    def norm(self, x, *a, **k):
+        if isinstance(x, np.ndarray) and x.dtype == object:
+            # only used for messages in the analysed code: an unconstrained non-negative symbol
+            from symx.values import _State
+            import z3
+
+            p = _State.ctx
+            p.fresh_n += 1
+            v = z3.Real(f"_norm{p.fresh_n}")
+            p.add_assumption(v >= 0)
+            return SymReal(v)
+        return self._la.norm(x, *a, **k)
+
+
 class _NpProxy:
     """numpy proxy for modules whose constructors force ``dtype=double`` onto their arguments"""
 
     def __init__(self, np_mod):
         self._np = np_mod
+        self.linalg = _LinalgProxy(np_mod.linalg)
 
     def __getattr__(self, k):
         return getattr(self._np, k)
@@ -65,9 +87,14 @@ class _NpProxy:
             # branch on exact equality up to the default tolerances
             rtol = kw.get("rtol", 1e-5)
             atol = kw.get("atol", 1e-8)
-            d = abs(a - b)
-            res = d <= atol + rtol * abs(b)
-            return res
+            if isinstance(a, np.ndarray) or isinstance(b, np.ndarray):
+                # elementwise without numpy's object comparison loop (which would call bool() = fork on every element)
+                aa, bb = np.broadcast_arrays(np.asarray(a, dtype=object), np.asarray(b, dtype=object))
+                res = np.empty(aa.shape, dtype=object)
+                for idx in np.ndindex(*aa.shape):
+                    res[idx] = abs(aa[idx] - bb[idx]) <= atol + rtol * abs(bb[idx])
+                return res
+            return abs(a - b) <= atol + rtol * abs(b)
         return self._np.isclose(a, b, *args, **kw)
 
     def allclose(self, a, b, *args, **kw):
